@@ -18,7 +18,10 @@ import signal
 import sys
 
 sys.path.insert(0, os.path.dirname(os.path.dirname(os.path.abspath(__file__))))
+sys.path.insert(0, os.path.dirname(os.path.abspath(__file__)))
 import pegdump  # noqa: E402
+import mmdump  # noqa: E402  (read-only use of the C01/C06 metamodel dumper)
+import c01 as _c01  # noqa: E402  (read-only use of the C01 runner's full model dump: dump_value / load)
 
 import arpeggio as A  # noqa: E402
 from textx import metamodel_from_str  # noqa: E402
@@ -234,6 +237,11 @@ def main():
             res["grammar_error"] = "memoization unexpectedly on"
             continue
         res["dump"] = d.to_json()
+        try:
+            res["mm"] = mmdump.dump_mm(mm, d)
+        except Exception as e:        # metamodel outside the Build model: the model-level sample is skipped
+            res["mm"] = None
+            res["mm_error"] = type(e).__name__
         rng = Lcg(int(case.get("pick", 1)))
         explicit = case.get("explicit") or []
         for text in case["inputs"]:
@@ -244,6 +252,7 @@ def main():
                 parser = mm._parser_blueprint.clone()
                 run["tree"], run["tokens"], run["comments"] = analyse(d, parser, text)
                 run["model"] = load(mm, text)
+                run["full"] = _c01.load(lambda: mm.model_from_str(text))
                 run["table"] = d.oracle_table(text)
                 run["tree_on"] = pegdump.parse_outcome(d_on, mm_on._parser_blueprint.clone(), text)
                 signal.setitimer(signal.ITIMER_REAL, 0)
@@ -276,6 +285,7 @@ def main():
                     signal.setitimer(signal.ITIMER_REAL, 5, 1)
                     m["tree"] = pegdump.parse_outcome(d, mm._parser_blueprint.clone(), mt)
                     m["model"] = load(mm, mt)
+                    m["full"] = _c01.load(lambda: mm.model_from_str(mt))
                     m["table"] = d.oracle_table(mt)
                     m["tree_on"] = pegdump.parse_outcome(d_on, mm_on._parser_blueprint.clone(), mt)
                     signal.setitimer(signal.ITIMER_REAL, 0)
